@@ -25,6 +25,7 @@ func init() {
 		Rule: "order axioms: every ordered pair of the string universe U (all strings of length<=L over {0,1,9,a,b,-}, L=4 quick / 5 thorough, plus PRNG strings with long digit runs and leading zeros) is tested for irreflexivity, asymmetry, totality and, when the two strings differ in exactly one digit run, agreement with math/big; transitivity on all triples of a PRNG subset; natsort.Strings on PRNG slices must return a sorted permutation. " +
 			"permutation invariance: every corpus module with >=2 top-level entities is re-parsed under permutations of its top-level definitions (all permutations when <=5 entities, capped PRNG sample otherwise; unnamed globals @N keep their relative order, since LLVM numbers them by appearance, while everything else moves around them) and must print as the original with only the textual-order lists (globals, aliases, ifuncs, functions) rearranged. " +
 			"entity order: modules of type, comdat and named-metadata definitions with hostile names (number-like, signed, zero-padded, escaped, UTF-8, beyond 64 bits) and sparse attribute-group / metadata / type IDs are written in 4 PRNG textual orders: each kind must be printed in natural order of the decoded names (numbers ascending), nothing may be lost or renamed, and the 4 printed modules must agree. " +
+			"api-edit order: parsed modules with sparse metadata and attribute-group IDs get definitions appended through the API (metadata definitions without ID, an attribute group with a smaller ID); the printed module must be valid for LLVM and list every section in the stated order. " +
 			"non-trivial = a pair of distinct strings / a triple of distinct strings / a non-identity permutation; distinct by construction (enumerated blocks) or by digest",
 		Gen:           genC20,
 		MinNontrivial: 10000,
